@@ -302,6 +302,15 @@ def _store_array(
         # treat a region as an offset within the target store
         shape = target.shape
         chunks = target.chunks
+        # normalise the region to one slice with explicit non-negative bounds per dimension
+        if len(region) > len(shape) or not all(isinstance(sl, slice) for sl in region):
+            raise ValueError(
+                f"Region {region} must be a tuple of at most {len(shape)} slices"
+            )
+        region = tuple(region) + (slice(None),) * (len(shape) - len(region))
+        if any(sl.step not in (None, 1) for sl in region):
+            raise ValueError(f"Region {region} must have unit steps")
+        region = tuple(slice(*sl.indices(n)[:2]) for sl, n in zip(region, shape))
         # tasks are enumerated over the target's blocks and read the corresponding
         # source block, so the source must have the target's chunking (no-op if it has)
         source = source.rechunk(chunks)
